@@ -41,21 +41,24 @@ CHILD_START = ("dget(_x, 'task_uuid') == UUID and not (seq(dget(_x, 'task_level'
 STATUS = "dget(_x, 'action_status')"
 
 contract(T + "LoggedAction.fromMessages", props=["C17"], types={"klass": "cls", "uuid": "Any", "level": "list[int]", "messages": LISTMSG}, returns="LoggedAction",
-         ghosts={"EXPK": "seq", "GOT": "seq", "LASTSTART": "Any", "LASTEND": "Any", "UUID": "Any", "PREFIX": "seq"},
-         ghost_defaults={"EXPK": "seq(())", "GOT": "seq(())", "LASTSTART": "None", "LASTEND": "None"},
+         ghosts={"EXPK": "seq", "GOT": "seq", "LASTSTART": "Any", "LASTEND": "Any", "UUID": "Any", "PREFIX": "seq", "NSEEN": "int"},
+         ghost_defaults={"EXPK": "seq(())", "GOT": "seq(())", "LASTSTART": "None", "LASTEND": "None", "NSEEN": "0"},
          after={"LoggedMessage.__new__#*": [("GOT", "GOT + [message]")], "LoggedAction.fromMessages#*": [("GOT", "GOT + [box(level)]")]},
          aliases={"START": 0, "END": 1, "CHILDREN": 2},
          modifies=[],
-         loops={0: {"locals": {"EXPK": "seq", "GOT": "seq", "LASTSTART": "Any", "LASTEND": "Any", "START": "Any", "END": "Any"}, "modifies": ["seq(CHILDREN)"],
+         loops={0: {"locals": {"EXPK": "seq", "GOT": "seq", "LASTSTART": "Any", "LASTEND": "Any", "START": "Any", "END": "Any", "NSEEN": "int"}, "modifies": ["seq(CHILDREN)"],
                     "ghost_init": [("UUID", "uuid"), ("PREFIX", "seq(level)[:-1]")],
                     "ghost_step": [
+                        ("NSEEN", "NSEEN + 1"),
                         ("EXPK", "EXPK + ite((%s) and %s != 'started' and %s != 'succeeded' and %s != 'failed', [_x], ite(%s, [dget(_x, 'task_level')], []))" % (OWN, STATUS, STATUS, STATUS, CHILD_START)),
                         ("LASTSTART", "ite((%s) and %s == 'started', _x, LASTSTART)" % (OWN, STATUS)),
                         ("LASTEND", "ite((%s) and (%s == 'succeeded' or %s == 'failed'), _x, LASTEND)" % (OWN, STATUS, STATUS))],
                     "inv": [("children-are-exactly-the-direct-messages-and-direct-child-actions-so-far-in-order", "GOT == EXPK and len(seq(CHILDREN)) == len(GOT)"),
                             ("own-start-and-end-messages", "START == LASTSTART and END == LASTEND"),
+                            ("every-message-so-far-was-looked-at", "NSEEN == _i"),
                             ("inputs-not-replaced", "seq(messages) == old(seq(messages)) and seq(level) == old(seq(level))")]}},
          ensures=[("children-are-exactly-the-direct-messages-and-direct-child-actions-in-list-order", "GOT == EXPK and len(seq(result.children)) == len(GOT)", ["C17"]),
+                  ("the-whole-message-list-was-scanned", "NSEEN == len(seq(messages))", ["C17"]),
                   ("own-start-and-end-messages", "result.startMessage == LASTSTART and result.endMessage == LASTEND and LASTSTART is not None and LASTEND is not None", ["C17"])],
          raises=[{"cls": "ValueError", "ensures": [("only-when-the-start-or-end-message-is-missing (here or in a child action)", "True")]},
                  {"cls": "BaseException", "ensures": []}])
@@ -73,5 +76,4 @@ contract(T + "assertHasMessage", props=["C17"],
          ensures=[("succeeds-exactly-when-the-first-message-of-the-type-has-a-superset-of-the-fields-and-returns-it",
                    "N > 0 and box(result) == seq(FOUND)[0] and implies(fields is not None, restrict(typed(result.message, 'dict'), typed(fields, 'dict')) == dict_of(typed(fields, 'dict')))", ["C17"])],
          raises=[{"cls": "AssertionError", "ensures": [("fails-when-no-message-of-the-type-or-a-field-differs",
-                   "N == 0 or (fields is not None and not (restrict(typed(typed(seq(FOUND)[0], 'LoggedMessage').message, 'dict'), typed(fields, 'dict')) == dict_of(typed(fields, 'dict'))))", ["C17"])]},
-                 {"cls": "BaseException", "ensures": []}])
+                   "N == 0 or (fields is not None and not (restrict(typed(typed(seq(FOUND)[0], 'LoggedMessage').message, 'dict'), typed(fields, 'dict')) == dict_of(typed(fields, 'dict'))))", ["C17"])]}])
